@@ -395,7 +395,12 @@ def check_result(ck, spec, res, case):
                 V("root-mean-square-error", f"root_mean_square_error={rmse!r} but sqrt(reduced_chi_square)={math.sqrt(max(float(red), 0.0))!r}")
         elif not isnan(float(rmse)):
             V("root-mean-square-error", f"root_mean_square_error={rmse!r} for negative reduced chi-square {red!r}")
+    elif math.isfinite(float(red)) and chi != 0:
+        # dof = 0: chi_square / dof has no finite value (the code raises ZeroDivisionError and no Result exists)
+        V("reduced-chi-square-at-zero-dof", f"degrees_of_freedom = 0 but reduced_chi_square = {red!r} (chi_square = {float(chi)!r})")
     facts["rmse"] = float(res.root_mean_square_error)
+    if dof == 0:
+        return facts
 
     # --- per-dataset rmse ----------------------------------------------------------------------------
     for ds in spec["datasets"]:
@@ -412,6 +417,19 @@ def check_result(ck, spec, res, case):
             V("dataset-weighted-rmse" + (":weighted" if "weighted_residual" in r else ":unweighted"),
               f"{ds['label']!r}: attrs['weighted_root_mean_square_error']={float(r.attrs['weighted_root_mean_square_error'])!r} "
               f"but sqrt(mean(weighted_residual^2))={math.sqrt(float(wwant))!r}")
+
+    # --- what a user reads off the Result: chi-square from the per-dataset weighted RMSE attributes -------------------
+    from_rmse = sum((Fraction(len(ds["model_axis"]) * len(ds["global_axis"])) * F(res.data[ds["label"]].attrs["weighted_root_mean_square_error"]) ** 2
+                     for ds in spec["datasets"]), Fraction(0)) + ss_pen
+    if not rel_close(chi, from_rmse, 1e-12 + 8 * TOL_SUM):
+        V("chi-square-vs-dataset-rmse:" + tag(),
+          f"chi_square={float(chi)!r} but sum over datasets of size x weighted_root_mean_square_error^2 + squared penalties = {float(from_rmse)!r}")
+    # witness class of `unweighted_rmse_not_chi_square_counterexample`: with a weight the unweighted RMSE attributes do not add up to chi-square
+    if any("weighted_residual" in res.data[ds["label"]] for ds in spec["datasets"]):
+        unw = sum((Fraction(len(ds["model_axis"]) * len(ds["global_axis"])) * F(res.data[ds["label"]].attrs["root_mean_square_error"]) ** 2
+                   for ds in spec["datasets"]), Fraction(0)) + ss_pen
+        ck.count("oracle:weighted-result:unweighted-rmse-sum-" + ("equals" if rel_close(chi, unw, 1e-9) else "differs-from") + "-chi-square")
+    check_report(ck, spec, res, case)
 
     # --- covariance ----------------------------------------------------------------------------------
     C = np.asarray(res.covariance_matrix, dtype=float)
@@ -448,8 +466,97 @@ def check_result(ck, spec, res, case):
                   f"standard_error of {label!r} is {got!r}, expected {want!r} (rmse x sqrt(diag) = {float(err)!r}, value {float(p.value)!r})")
             if got < 0:
                 V("standard-error-negative", f"standard_error of {label!r} is {got!r}")
+        # a parameter whose column of the Jacobian is exactly zero (nothing depends on it): a singular direction — its row and
+        # column of the pseudo-inverse are zero and its standard error is 0, not inf / nan (Lean: stderr_of_singular_direction).
+        # Judged only where the Penrose identities are (well-conditioned J^T J): next to a tiny singular value LAPACK may
+        # rotate the zero direction into the kept ones, and 1/s^2 amplifies that rounding.
+        if J.shape == (N, nfree) and np.all(np.isfinite(C)) and res.root_mean_square_error == res.root_mean_square_error \
+                and info.get("penrose_checked"):
+            cmax = float(np.abs(C).max()) if C.size else 0.0
+            for j, label in enumerate(res.free_parameter_labels):
+                if N and not np.any(J[:, j]):
+                    ck.count("oracle:zero-jacobian-column")
+                    got = float(res.optimized_parameters.get(label).standard_error)
+                    big = float(res.root_mean_square_error) * math.sqrt(max(cmax, 0.0))
+                    if float(np.abs(C[j, :]).max()) > 1e-9 * cmax or float(np.abs(C[:, j]).max()) > 1e-9 * cmax or not (abs(got) <= 1e-4 * big):
+                        V("standard-error-of-singular-direction", f"column {j} of the Jacobian is zero but covariance row {C[j, :].tolist()} / "
+                          f"standard_error of {label!r} = {got!r} (expected 0; max |C| = {cmax!r})")
         fixed = [p for p in res.optimized_parameters.all() if p.label not in res.free_parameter_labels]
         for p in fixed:
             if not isnan(float(p.standard_error)):
                 V("standard-error-on-fixed-parameter", f"fixed parameter {p.label!r} got standard_error {p.standard_error!r}")
     return facts
+
+
+# ------------------------------------------------------------------------------------------------
+# the report: Result.markdown() against the fields of the Result
+# ------------------------------------------------------------------------------------------------
+REPORT_ROWS = [("Number of residuals", "number_of_residuals", int), ("Number of free parameters", "number_of_free_parameters", int),
+               ("Number of conditionally linear parameters", "number_of_clps", int), ("Degrees of freedom", "degrees_of_freedom", int),
+               ("Chi Square", "chi_square", float), ("Reduced Chi Square", "reduced_chi_square", float),
+               ("Root Mean Square Error (RMSE)", "root_mean_square_error", float)]
+
+
+def table_rows(md):
+    rows = []
+    for line in str(md).splitlines():
+        line = line.strip()
+        if line.startswith("|") and line.endswith("|") and set(line) - set("|-: "):
+            rows.append([c.strip() for c in line[1:-1].split("|")])
+    return rows
+
+
+def same_shown(cell, value):
+    """the cell shows `value` to the three significant digits of the format .2e"""
+    want = format(float(value), ".2e")
+    if cell == want:
+        return True
+    try:
+        return float(cell) == float(want) or (float(cell) != float(cell) and float(want) != float(want))
+    except ValueError:
+        return False
+
+
+def check_report(ck, spec, res, case):
+    V = lambda key, what: ck.violation(key, what, case)
+    labels = [ds["label"] for ds in spec["datasets"]]
+    if any(("|" in l or "\n" in l) for l in labels):
+        ck.count("report:skipped:label-with-bar")
+        return
+    import dataclasses
+    variants = [("as-is", res)]
+    if not getattr(ck, "_c13_zero_report_done", False):
+        ck._c13_zero_report_done = True
+        # the same report for a Result whose float statistics are exactly zero (a perfect fit)
+        variants.append(("zero-statistics", dataclasses.replace(res, chi_square=0.0, reduced_chi_square=0.0, root_mean_square_error=0.0)))
+    for vname, r in variants:
+        try:
+            rows = table_rows(r.markdown(with_model=False))
+        except Exception as e:
+            V("report-raises", f"Result.markdown raised {type(e).__name__}: {e}")
+            return
+        ck.count("report:checked:" + vname)
+        cells = {row[0]: row[1:] for row in rows if len(row) >= 2}
+        for label, field, kind in REPORT_ROWS:
+            value = getattr(r, field)
+            if label not in cells:
+                V("report-row-missing", f"the report has no row {label!r}")
+                continue
+            cell = cells[label][0]
+            ok = (cell == str(int(value))) if kind is int else same_shown(cell, value)
+            if not ok:
+                V("report-value:" + field + (":zero" if vname == "zero-statistics" else ""),
+                  f"the report shows {cell!r} in row {label!r} but result.{field} = {value!r}")
+        if len(r.data) > 1 and vname == "as-is":
+            header = next((row for row in rows if row and row[0] == "RMSE (per dataset)"), None)
+            if header is None or header[1:] != ["weighted", "unweighted"]:
+                V("report-rmse-table", f"per-dataset RMSE table header is {header}")
+                continue
+            for k, (label, ds) in enumerate(r.data.items(), start=1):
+                row = cells.get(f"{k}.{label}:")
+                if row is None or len(row) != 2:
+                    V("report-rmse-table", f"no row for dataset {label!r} in the per-dataset RMSE table")
+                    continue
+                for name, cell, value in (("weighted", row[0], ds.attrs["weighted_root_mean_square_error"]), ("unweighted", row[1], ds.attrs["root_mean_square_error"])):
+                    if not same_shown(cell, float(value)):
+                        V("report-rmse-table:" + name, f"dataset {label!r}: the report shows {cell!r} under {name!r} but the attribute is {float(value)!r}")
